@@ -5,6 +5,7 @@ package hydra
 import (
 	"sync"
 
+	"github.com/hydraide/hydraide/app/core/hydra/swamp"
 	"github.com/hydraide/hydraide/app/name"
 )
 
@@ -24,4 +25,18 @@ func VerifEventSubscriberCount(h Hydra, swampName name.Name) int {
 		})
 	}
 	return n
+}
+
+// VerifEventSendingState reports whether the swamp is in memory and, if so, whether it is
+// sending events (verification harness only).
+func VerifEventSendingState(h Hydra, swampName name.Name) (loaded bool, active bool) {
+	hh, ok := h.(*hydra)
+	if !ok {
+		return false, false
+	}
+	obj, ok := hh.swamps.Load(swampName.Get())
+	if !ok {
+		return false, false
+	}
+	return true, swamp.VerifEventSendingActive(obj.(swamp.Swamp))
 }
